@@ -175,11 +175,8 @@ def execute(doc: dict) -> dict:
     def scratch_arrays():
         out = []
         for name, o in objs.items():
-            for attr in dir(o):
-                if attr.endswith("__temp"):
-                    a = getattr(o, attr)
-                    if isinstance(a, np.ndarray):
-                        out.append((name, a))
+            for a in packgen.scratch_arrays(o):
+                out.append((name, a))
         return out
 
     for idx, op in enumerate(doc["ops"]):
